@@ -17,7 +17,10 @@ ORACLE_GEN = T([dict(cfg="GEN_Oracle.cfg", num=14, depth=24, seeds=10)],
                [dict(cfg="GEN_Oracle.cfg", num=60, depth=28, seeds=14)])
 ORACLE_MC = T([dict(cfg="MC_Oracle.cfg", timeout=1500)], [dict(cfg="MC_Oracle_big.cfg", timeout=3400)])
 ORACLE_GEN_CFG = "users=2,provs=2,funds=60,maxtimeout=2,price=10" + _NOF15
-ORACLE_SCN = [] if _NOF15 else [dict(file="scenarios/oracle_F15.ndjson", cfg="users=2,provs=2,funds=60,maxtimeout=2,price=10")]
+# fixed coverage suite (every required antecedent, whatever the seed) + the scenario of known finding F15
+ORACLE_SCN = [dict(file="scenarios/oracle_cover.ndjson", cfg="users=2,provs=2,funds=60,maxtimeout=2,price=10")]
+if not _NOF15:
+    ORACLE_SCN.append(dict(file="scenarios/oracle_F15.ndjson", cfg="users=2,provs=2,funds=60,maxtimeout=2,price=10"))
 
 # C11 (finding F7): a short live run whose exchange-rate outcomes straddle the five-minute limit the oracle's
 # module service measures against the host clock; recorded under VERIF_RECORD_DIR and replayed later on replicas.
